@@ -301,11 +301,11 @@ Let vars := vars_of src ex.
 Local Notation cache_sound := (cache_sound vars g).
 
 (* what one call ( *prg_)[ip_].sym->eval( *this) guarantees *)
-Definition post (st : state) (t : tree) (r : res) (st' : state) : Prop :=
+Definition post (st : state) (t : tree) (r : mres) (st' : state) : Prop :=
   r = res_of_outcome (den vars t) /\ cache_sound st' /\ example st' = ex /\
   cache_ext st st' /\ (is_val r -> ip st' = ip st).
 
-Definition rec_ok (n : nat) (rec : state -> res * state) : Prop :=
+Definition rec_ok (n : nat) (rec : state -> mres * state) : Prop :=
   forall st t, tree_of n g (ip st) = Some t -> cache_sound st -> example st = ex ->
     post st t (fst (rec st)) (snd (rec st)).
 
